@@ -214,8 +214,8 @@ func e6Case(seed uint64, n int, race bool) Case {
 			if !bad && first+len(got) < upto {
 				r.V("C05", "events-missing", "%s (depth %d): received %d events ending at published #%d, but %d had been published before it was closed", l.n, t.depth(l.n), len(got), first+len(got)-1, upto)
 			}
-			if l.n.mir.preRdy > 0 {
-				r.V("C08", "event-before-ready", "%s received %d event(s) before its Ready() closed", l.n, l.n.mir.preRdy)
+			if l.n.mir.preReady() > 0 {
+				r.V("C08", "event-before-ready", "%s received %d event(s) before its Ready() closed", l.n, l.n.mir.preReady())
 			}
 			l.n.mir.reportCacheClause(r)
 		}
